@@ -118,6 +118,24 @@ def transcript(xml: Path, scratch: Path, tag: str, config) -> list:
                  _ids(ss.get_related()), _ids(ss.hypernyms()), _ids(ss.hyponyms()),
                  [_ids(p) for p in ss.hypernym_paths()], ss.min_depth(), ss.max_depth(),
                  _ids(ss.closure('hypernym')), _ids(ss.translate())])
+        # the same object asked again after other read-only calls on it (a closure walks the
+        # relations it was given): compared inside the check, [before, after] must agree
+        for ss in sss:
+            def ask(ss=ss):
+                return [_ids(ss.hypernyms()), _ids(ss.get_related()),
+                        _ids(ss.get_related('hypernym')),
+                        [_ids(p) for p in ss.hypernym_paths()], ss.max_depth()]
+            before = ask()
+            _ids(ss.closure('hypernym', 'instance_hypernym'))
+            _ids(ss.closure('hypernym'))
+            next(iter(ss.closure()), None)            # ... also one that is abandoned midway
+            put(['same-object', ss.id, before, ask()])
+        for s in w.senses():
+            names = ('antonym', 'also', 'zz_rel')
+            before = [_ids(s.get_related(*names)), _ids(s.get_related())]
+            _ids(s.closure(*names))
+            next(iter(s.closure()), None)
+            put(['same-object', s.id, before, [_ids(s.get_related(*names)), _ids(s.get_related())]])
         put(['roots', _ids(tax.roots(w)), 'leaves', _ids(tax.leaves(w))])
         depth = {p: tax.taxonomy_depth(w, p) for p in ('n', 'v', 'a')}
         put(['taxonomy_depth', _items(depth)])
